@@ -7,10 +7,27 @@
    every non-singular A — positively oriented or reflected. *)
 From Coq Require Import QArith Reals List Bool.
 From EFLib Require Import PolyQ ElemDefs.
-From EFP Require Import C08_defs Gen_Elems Gen_Faces C08_pointin.
+From EFP Require Import C08_defs Gen_Elems Gen_Faces C08_pointin C08_locate.
 
 Theorem point_in_elem_3d_exact :
   pie_orient = OrientCentroid /\ forall t, In t all_ftabs -> chk_pie pie_trim t = true.
 Proof. split; [reflexivity | apply forallb_In; vm_compute; reflexivity]. Qed.
 
+(* the composed statement for the source as found: for every 3-D type, every affine element
+   (det A <> 0, any orientation) and every point x of R^3: the affine branch of _Get_Mapping returns
+   the pre-image xi of x, and Get_pointsInElem reports x in the element iff xi is in the closed
+   reference element iff x is in the closed image of the reference element. *)
+Theorem located_iff_in_image_3d_as_found : forall t, In t all_ftabs -> fdim t = 3 ->
+  forall (O : R3) (A : M3) (xi0 : R3), det3 A <> 0%R -> forall x : R3,
+  phys O A (xi_code O A xi0 x) = x /\
+  (accepted (elem_of t) O A (pie_rows pie_trim t) (phys O A (qvec (centroid (fparent t)))) x <->
+     in_ref (fparent t) (xi_code O A xi0 x)) /\
+  (accepted (elem_of t) O A (pie_rows pie_trim t) (phys O A (qvec (centroid (fparent t)))) x <->
+     exists u, in_ref (fparent t) u /\ x = phys O A u).
+Proof.
+  intros t Ht Hd O A xi0 Hdet x.
+  exact (located_iff_in_image_3d pie_trim t Ht Hd (proj2 point_in_elem_3d_exact t Ht) O A xi0 Hdet x).
+Qed.
+
 Print Assumptions point_in_elem_3d_exact.
+Print Assumptions located_iff_in_image_3d_as_found.
